@@ -250,3 +250,37 @@ func (v *VerifC29State) Snap() VerifC29Snap {
 		HasPendingWork: s.hasPendingWork(), CanStart: s.canStartAppend(),
 	}
 }
+
+// ---- writer reclaim -----------------------------------------------------------------------
+
+// VerifC29IdleState describes a channelWriter as the shard's reclaim sweep sees it.
+type VerifC29IdleState struct {
+	Inbox, Pending, Inflight, Completed int
+	Ready, Scheduled                    bool
+	Limit                               int
+	IdleAt, Now, Retention              int64 // nanoseconds
+}
+
+// VerifC29IdleExpired builds a writer in that state and runs channelWriter.idleExpired.
+func VerifC29IdleExpired(st VerifC29IdleState) bool {
+	w := newChannelWriter(AuthorityTarget{ChannelID: ChannelID{ID: "c", Type: 2}}, channelStateLimits{appendInflightLimit: st.Limit})
+	for i := 0; i < st.Inbox; i++ {
+		w.inbox = append(w.inbox, submittedBatch{})
+	}
+	if st.Pending > 0 {
+		w.state.pendingItems = make([]preparedSend, st.Pending)
+	}
+	if st.Inflight > 0 {
+		w.state.appendInflight = st.Inflight
+	}
+	w.state.hasReadyAppendCompletion = st.Ready
+	if st.Completed > 0 {
+		w.state.completedAppends = make(map[uint64]appendCompletedEvent)
+		for i := 0; i < st.Completed; i++ {
+			w.state.completedAppends[uint64(100+i)] = appendCompletedEvent{seq: uint64(100 + i)}
+		}
+	}
+	w.scheduled.Store(st.Scheduled)
+	w.lastIdleUnixNano.Store(st.IdleAt)
+	return w.idleExpired(time.Unix(0, st.Now), time.Duration(st.Retention))
+}
